@@ -210,7 +210,6 @@ impl H {
             s.panic_at = 0;
             s.log.clear();
             s.drops.clear();
-            s.resets_seen.clear();
         });
         H { world: Some(World::new()), hids: vec![], cids: vec![], geids: vec![], teids: vec![], snap }
     }
@@ -218,19 +217,9 @@ impl H {
     fn guarded<R>(&mut self, f: impl FnOnce(&mut World) -> R) -> Result<R, u32> {
         let w = self.world.as_mut().expect("world dropped");
         let before = evenio::verif::bump_resets();
-        ST.with(|s| s.borrow_mut().resets_seen.clear());
+        ST.with(|s| s.borrow_mut().resets_base = before);
         match catch_unwind(AssertUnwindSafe(|| f(w))) {
-            Ok(r) => {
-                // C20: no arena reset may be observed by any handler invocation of this call
-                ST.with(|s| {
-                    for &r in &s.borrow().resets_seen {
-                        if r != before {
-                            println!("X arena reset observed during a top-level call ({before} -> {r})");
-                        }
-                    }
-                });
-                Ok(r)
-            }
+            Ok(r) => Ok(r),
             Err(_) => {
                 let msg = LAST_PANIC.with(|m| m.borrow().clone());
                 let k = panic_kind(&msg);
